@@ -2,7 +2,7 @@
    Scope of the proved core: BOOL and the eight integer kinds, assignment, IF/ELSIF, CASE, FOR,
    WHILE, REPEAT, EXIT, CONTINUE; programs accepted by the strict discipline T (Model/StTyping.v). *)
 From Coq Require Import ZArith List Bool.
-From TP Require Import Model.StCore Model.StTyping Proofs.StProofs.
+From TP Require Import Model.StCore Model.StTyping Proofs.StProofs Model.StCalls Proofs.StCallsProofs.
 Import ListNotations.
 Open Scope Z_scope.
 
@@ -84,6 +84,30 @@ Example c01_nonvacuous :
      SAssign 1 (EBin BGe (EVar 2) (ELit false (VInt KUSInt 7)))] = Fault FOverflow.
 Proof. exact st_nonvacuous_l. Qed.
 
+(* function-block calls with named arguments (Model/StCalls.v: the instance's variables in the flat store, the call inlined):
+   whatever the body does and whatever the arguments and the store are, a call that completes has changed only the variables of
+   its own instance and the variables bound to its outputs - the caller's other variables and all other instances are untouched *)
+Theorem fb_call_changes_only_instance_and_outputs : forall o fuel depth s f base en ins outs eno r,
+  wr_block (fun x => Nat.ltb x (fb_size f)) (fb_body f) = true -> (length ins <= fb_nin f)%nat ->
+  exec o fuel depth s (inline_call f base en ins outs eno) = Ok r ->
+  forall y, call_writes f base outs eno y = false -> nth_error (fst r) y = nth_error s y.
+Proof. exact call_frame_l. Qed.
+(* a call, inlined, is an ordinary statement: when it is T-typed the soundness theorem applies to it (no static-class fault inside
+   the callee or on return to the caller) *)
+Theorem fb_call_sound : forall o strict,
+  o_neg_checked o = true -> o_for_checked o = true -> o_coerce_write o = true \/ strict = true -> o_case_unsigned o = true ->
+  forall G fuel depth s f base en ins outs eno il, store_ok G s = true ->
+  tstmt strict G il (inline_call f base en ins outs eno) = true -> (il = true -> depth <> 0%nat) ->
+  sres_ok G depth (exec o fuel depth s (inline_call f base en ins outs eno)).
+Proof. exact (fun o strict H1 H2 H3 H4 G fuel depth s f base en ins outs eno il => exec_sound o strict H1 H2 H3 H4 G fuel depth s (inline_call f base en ins outs eno) il). Qed.
+Theorem fb_call_nonvacuous :
+  wr_block (fun x => Nat.ltb x (fb_size demo_fb)) (fb_body demo_fb) = true /\
+  exec demo_opts 10 0 demo_store (inline_call demo_fb 4 (Some (EVar 3)) [EVar 0] [Some 1%nat] (Some 2%nat)) =
+    Ok ([VInt KInt 5; VInt KInt 5; VBool true; VBool true; VBool true; VInt KInt 5; VInt KInt 5; VBool true; VInt KInt 5], GNormal) /\
+  exec demo_opts 10 0 demo_store (inline_call demo_fb 4 (Some (EVar 2)) [EVar 0] [Some 1%nat] (Some 3%nat)) =
+    Ok ([VInt KInt 5; VInt KInt 0; VBool false; VBool false; VBool false; VInt KInt 0; VInt KInt 0; VBool false; VInt KInt 0], GNormal).
+Proof. exact call_demo. Qed.
+
 Print Assumptions type_soundness.
 Print Assumptions type_soundness_every_cycle.
 Print Assumptions int_expr_sound.
@@ -95,3 +119,5 @@ Print Assumptions untyped_literals_reach_type_mismatch_refuted.
 Print Assumptions unsigned_case_selector_refuted.
 Print Assumptions return_in_program_body_refuted.
 Print Assumptions negative_literal_in_unsigned_context_refuted.
+Print Assumptions fb_call_changes_only_instance_and_outputs.
+Print Assumptions fb_call_sound.
